@@ -7,7 +7,7 @@ from __future__ import unicode_literals
 
 import sys
 import os
-from glob import glob
+from glob import glob, escape
 
 import numpy as np
 from scipy.linalg import inv, toeplitz, solve_banded, solve_triangular
@@ -274,7 +274,7 @@ def _load_bs(basis_dir, n, degree, verbose=False):
     file_mask = 'daun_basis_*_{}.npy'.format(degree)
     best_file = None
     best_size = np.inf
-    for f in glob(os.path.join(basis_dir, file_mask)):
+    for f in glob(os.path.join(escape(basis_dir), file_mask)):
         size = int(f.split('_')[-2])  # (from '...basis_<size>_<degree>.npy')
         if degree == 3 and size != n:
             # cubic splines depend on the total size, cannot be cropped
@@ -502,6 +502,6 @@ def basis_dir_cleanup(basis_dir=''):
     if basis_dir is None:
         return
 
-    files = glob(os.path.join(basis_dir, 'daun_basis_*.npy'))
+    files = glob(os.path.join(escape(basis_dir), 'daun_basis_*.npy'))
     for fname in files:
         os.remove(fname)
